@@ -4,6 +4,7 @@ from petl.errors import DuplicateKeyError
 from hypothesis import strategies as st
 
 from pv import gen, codec
+from pv.probes import BOOM_KINDS
 from pv.core import Sub, Fail, exc_fail
 from pv.ref import base as R, joins as RJ
 
@@ -14,12 +15,12 @@ RULE = ("Sub 'hashjoins': table pairs as in C06 with hashable key cells (rectang
         "nested-loop reference (so a defect shared by both implementations cannot hide); (3) exact sequence: rows follow "
         "the streamed side's table order with partners in the other table's order; (4) every pass equals the first under "
         "both cache settings. Sub 'lookups': lookup/lookupone/dictlookup/dictlookupone/recordlookup/recordlookupone on "
-        "rectangular tables vs a plain-dict reference (key -> rows/values in table order; *one -> first; strict raises "
+        "rectangular tables (dict forms: also rows ragged beyond the key, read as dicts() reads them) vs a plain-dict reference (key -> rows/values in table order; *one -> first; strict raises "
         "DuplicateKeyError iff a key repeats). Non-trivial = duplicate keys on the build "
         "side (hash joins: plus >=1 match), or a second pass with cache=True. Distinct by digest.")
 ASSUMPTIONS = [
     "key cells are hashable scalars or tuples of them (the hash operators' domain)",
-    "rectangular inputs for hashantijoin and for the lookup functions",
+    "rectangular inputs for hashantijoin and for lookup/recordlookup; dictlookup reads short rows padded with None like dicts()",
 ]
 
 PAIRS = {"hashjoin": ("join", "inner"), "hashleftjoin": ("leftjoin", "left"), "hashrightjoin": ("rightjoin", "right"),
@@ -62,6 +63,7 @@ def hj_case(draw, tier):
         c["rprefix"] = "r_"
     # optionally the first pass hits a transient fault while the build side is being read
     c["fail_first"] = draw(st.one_of(st.none(), st.none(), st.integers(0, 3)))
+    c["fail_kind"] = draw(st.sampled_from(BOOM_KINDS))
     return c
 
 
@@ -114,6 +116,7 @@ def check_hj(case, ctx):
             from pv.probes import Counting, Boom
             cb = Counting(bside)
             cb.fail_at = ff
+            cb.fail_kind = case.get("fail_kind", "plain")
             view = getattr(etl, fn)(cb, Ra, **kw) if fn == "hashrightjoin" else getattr(etl, fn)(La, cb, **kw)
             try:
                 list(iter(view))
@@ -157,8 +160,12 @@ def lk_case(draw, tier):
     hdr = ["k", "j", "a", "b"][:nf]
     p = draw(gen.twinned_pool(KEYCELL, 2, 4))
     cell = st.one_of(st.sampled_from(p), st.integers(0, 3))
-    tbl = draw(gen.table(hdr, [st.sampled_from(p)] * min(2, nf) + [cell] * (nf - min(2, nf)), max_rows=7 if tier == "quick" else 14))
     fn = draw(st.sampled_from(LOOKUPS))
+    # the dict forms read rows the way dicts() does (short rows padded with None, long rows trimmed), so they also get rows
+    # that are ragged beyond the key fields
+    ragged = fn.startswith("dict") and draw(st.booleans())
+    tbl = draw(gen.table(hdr, [st.sampled_from(p)] * min(2, nf) + [cell] * (nf - min(2, nf)), max_rows=7 if tier == "quick" else 14,
+                         ragged=ragged, ragged_min=2, ragged_odds=2))
     key = draw(st.sampled_from(["k", ("k", "j"), 0, ("k",)]))
     c = {"fn": fn, "table": tbl, "key": key}
     if fn in ("lookup", "lookupone"):
@@ -200,7 +207,9 @@ def check_lk(case, ctx):
     rows = [tuple(r) for r in tbl[1:]]
     keys = [R.keyof(r, ki) for r in rows]
     if fn.startswith("dict"):
-        vals = [dict(zip(hdr, r)) for r in rows]
+        vals = [dict(zip(hdr, (r + (None,) * len(hdr))[:len(hdr)])) for r in rows]
+        if any(len(r) != len(hdr) for r in rows):
+            ctx.label("ragged-dict-rows")
     elif fn.startswith("record"):
         vals = rows
     else:
